@@ -107,3 +107,14 @@ check("C16", "model_checking",
       "index, slice or constant changes an exact rational somewhere on the lattice.",
       "trusted: TLC; nearest-rational projection (denominator <= 80000, 2e-11); libm accuracy at the lattice angles; points between lattice "
       "points are not examined", "TLC-checked exact lattice model + TLC validation of real evaluations on the lattice", "DESIGN.md 5/C16")
+
+check("C17", "model_checking",
+      "Results.tla: individuals are recorded one at a time with arbitrary tags; the queries and indicators are definitions in ResultsOps.tla "
+      "(population = tag-filtered subsequence, default = largest tag, listings = paired bags, sorted variant, optimum = recorded and extremal "
+      "for the direction, EpsAdd = max-min-max, nearest squared distance, integer square root). TLC checks all record lists of <=3 (4) "
+      "records over 48 record values for partition / order / default / optimum / sorted-listing laws, and the indicator laws over all 511 "
+      "non-empty subsets of the 3x3 grid. TLC-simulated record lists (1..7 records) and random lists up to 40 records are recorded into a "
+      "real Problem; every Results query (default, per tag, sorted, unsorted) and both indicators on integer point sets are validated by "
+      "ResultsTrace.",
+      "trusted: TLC; integer-valued records and point sets; gd compared in 1e-3 units through an integer square root",
+      "TLC exhaustive model + TLC-simulated record lists replayed + TLC trace validation", "DESIGN.md 5/C17")
